@@ -4,10 +4,13 @@ import (
 	"encoding/json"
 	"flag"
 	"fmt"
+	"go/types"
 	"os"
 	"sort"
 	"strconv"
 	"strings"
+
+	"golang.org/x/tools/go/ssa"
 )
 
 // ruleFuncs maps a property id to its rule set.
@@ -128,6 +131,25 @@ func doDump(p *Prog, what string) {
 		f.WriteTo(os.Stdout)
 		for _, rt := range returns(f) {
 			fmt.Printf("return at %s kind=%d\n", p.instrPos(rt), exitKind(rt))
+		}
+	case what == "mapranges":
+		ops := p.Reachable(func() []*ssa.Function {
+			var rs []*ssa.Function
+			for _, e := range p.AllEntries() {
+				rs = append(rs, e.Fn)
+			}
+			return rs
+		}(), func(f *ssa.Function) bool { return p.isAuxFn(f) })
+		for _, f := range p.Funcs {
+			for _, b := range f.Blocks {
+				for _, in := range b.Instrs {
+					if rg, ok := in.(*ssa.Range); ok {
+						if _, isMap := rg.X.Type().Underlying().(*types.Map); isMap {
+							fmt.Printf("%s %s reachable=%v aux=%v\n", p.instrPos(rg), fname(f), ops[f], p.isAuxFn(f))
+						}
+					}
+				}
+			}
 		}
 	case strings.HasPrefix(what, "names:"):
 		sub := strings.TrimPrefix(what, "names:")
